@@ -9,6 +9,7 @@ probed with addresses chosen so that zero-run compression and leading-zero suppr
 from __future__ import annotations
 import random
 from .common import Verdict, cps, uncps, outcome_of_exception
+from . import c01
 
 ID = "C18"
 GEN = ["Cidr"]
@@ -71,6 +72,20 @@ def gen_cases(tier, seed, gen, effort):
         w = 32 if c["kind"] == "v4" else 128
         c["addrs"] = [str(a) for a in probes(rnd, w, c["base"], c["p"], thorough)]
     cases += [{"kind": "invalid", "text": t} for t in INVALID]
+    # the patterns as they stand in a query: a backend without native CIDR support OR-links them; inside AND / NOT the group must
+    # stay one operand (read back by the target grammar and compared with the rule's meaning: the C01 machinery)
+    base_cfg = {"prec": ["not", "and", "or"], "parenthesize": False, "orAsIn": False, "andAsIn": False, "inAllowWild": False, "notAsNotEq": False,
+                "sw": True, "ew": True, "ct": True, "wm": False, "swSpecial": False, "ewSpecial": False, "ctSpecial": False,
+                "cased": "all", "explicitNotExists": False, "nativeCidr": False}
+    nets = ["10.0.0.0/9", "192.168.0.0/23", "172.16.0.0/14", "10.1.2.0/30", "10.0.0.0/8"] + \
+           [text_of("v4", (rnd.getrandbits(32) >> (32 - p)) << (32 - p), p) for p in rnd.sample([5, 6, 7, 13, 15, 22, 23, 29, 31], 3 if not thorough else 9)]
+    for net in nets:
+        for or_in in (False, True):
+            for wild in (False, True):
+                for prec in (["not", "and", "or"], ["or", "and", "not"], ["and", "or", "not"]):
+                    cfg = dict(base_cfg, orAsIn=or_in, inAllowWild=wild, prec=prec)
+                    for cond in ("sel", "not sel", "sel and not flt", "flt or sel"):
+                        cases.append({"kind": "query", "dets": {"sel": {"f|cidr": net, "g": 1}, "flt": {"h|cidr": "10.2.0.0/15"}}, "cond": cond, "cfg": cfg})
     return cases, True
 
 
@@ -112,6 +127,8 @@ def text_of(kind, base, p):
 
 
 def run_impl(case):
+    if case["kind"] == "query":
+        return c01.run_impl(case)
     from sigma.types import SigmaCIDRExpression
     from sigma.collection import SigmaCollection
     from sigma.backends.test import TextQueryTestBackend
@@ -146,6 +163,8 @@ def run_impl(case):
 
 
 def make_request(case, impl, gen):
+    if case["kind"] == "query":
+        return c01.make_sem_request(case, impl, gen)
     if case["kind"] == "invalid" or impl["outcome"] != "ok":
         return {"op": "ping"}
     w = 32 if case["kind"] == "v4" else 128
@@ -177,6 +196,11 @@ def v4_range(pat):
 
 def judge(case, impl, reply):
     io = impl["outcome"]
+    if case["kind"] == "query":
+        v = c01.judge_sem(case, impl, reply)
+        v.key = ("query", case["dets"], case["cond"], case["cfg"]["orAsIn"], case["cfg"]["inAllowWild"], tuple(case["cfg"]["prec"]))
+        v.tags = ("kind:query",) + tuple(t for t in v.tags if t.startswith(("impl:", "unjudged")))
+        return v
     if case["kind"] == "invalid":
         key = ("invalid", case["text"])
         if io.startswith("sigma:"):
